@@ -251,6 +251,7 @@ class Gen:
                 text = re.sub(pat, lambda _m: new, text)
             log.add('RX(%s)' % why, p, old, new)
         text = rules.r1_assert_eq(text, p, log)
+        text = rules.r4_let_match(text, p, log)
 
         def site_expr(k):
             kind = fn.panics.get(k, None)
@@ -407,6 +408,16 @@ class Gen:
             i += 1
         t = ''.join(out)
         t = re.sub(r'pub\s*\(crate\)\s*', 'pub ', t)
+        derive = ''
+        if it.kind in ('struct', 'enum'):
+            parts_ = split_path(path)
+            mods_ = tuple(x for x in parts_ if not x.startswith('{'))
+            try:
+                hdrs = [x.header for x in c.mod_items(mods_) if x.kind == 'impl']
+                if any(re.search(r'marker::Copy\s+for\s+%s$' % it.name, h) for h in hdrs):
+                    derive = '#[derive(Clone, Copy)]\n'
+            except KeyError:
+                pass
         if it.kind == 'struct':
             # all fields public so that specs can read them
             body_open = t.index('{') if '{' in t else -1
@@ -422,7 +433,7 @@ class Gen:
                     f = re.sub(r'^pub\s+', '', f)
                     fields.append('    pub ' + f + ',')
                 t = t[:body_open + 1] + '\n' + '\n'.join(fields) + '\n}'
-        return 'pub ' + rules.r8r9_paths(t, path, rules.Log())
+        return derive + 'pub ' + rules.r8r9_paths(t, path, rules.Log())
 
     def check_trait(self, path, annotated):
         """the annotated trait (with spec members and contracts) must declare exactly the fn signatures of the real trait"""
@@ -494,7 +505,7 @@ class Gen:
             parts.append('//@item %s' % tpath)
             it_text = self.item_text(tpath)
             parts.append(it_text)
-            me = re.match(r'pub enum\s+(\w+)\s*\{', it_text)
+            me = re.search(r'pub enum\s+(\w+)\s*\{', it_text)
             if me:
                 for vm in re.finditer(r'(\w+)\s*\(([^)]*)\)', it_text[me.end():]):
                     for k, ty in enumerate(x.strip() for x in vm.group(2).split(',')):
@@ -503,7 +514,7 @@ class Gen:
                             parts.append('#[verifier::external_body]\npub broadcast proof fn %s(s: %s) ensures typed(#[trigger] s->%s_%d) {}'
                                          % (nm, me.group(1), vm.group(1), k))
                             typed_ax.append(nm)
-            ms = re.match(r'pub struct\s+(\w+)\s*\{', it_text)
+            ms = re.search(r'pub struct\s+(\w+)\s*\{', it_text)
             if ms:
                 for fm in re.finditer(r'pub\s+(\w+)\s*:\s*f64\s*,', it_text):
                     nm = 'ax_typed_%s_%s' % (ms.group(1), fm.group(1))
